@@ -122,8 +122,13 @@ def gen_program_a(rng: random.Random, sg: SeqGen) -> dict[str, Any]:
             st: dict[str, Any] = {"logs": sg.logs("step"), "act": a, "rows": rng.choice([0, 1, 2, 3]), "pad": rng.choice([0, 0, 60, 400])}
             if a == "raise":
                 st["exc"] = ("RuntimeError", "step failed")
+            if a == "emit" and rng.random() < 0.15:
+                # the step emits its data batch, logs again, and only then fails: the batch is discarded with
+                # the step, but every log of the call still precedes the error
+                st["post_logs"] = sg.logs("step_after_emit")
+                st["raise_after"] = ("RuntimeError", "failed after emit")
             steps.append(st)
-            if a in ("raise", "finish", "emit_finish"):
+            if a in ("raise", "finish", "emit_finish") or st.get("raise_after"):
                 break
         m["steps"] = steps
         methods.append(m)
@@ -154,6 +159,10 @@ def expected_events(m: dict[str, Any], n_inputs: int) -> list[tuple[Any, ...]]:
     if m["kind"] == "producer":
         for st in steps:
             ev += [("log", seq_of(lg), "step", st["act"]) for lg in st["logs"]]
+            if st.get("raise_after"):
+                ev += [("log", seq_of(lg), "step_after_emit", "raise") for lg in st.get("post_logs", [])]
+                ev.append(("error",))
+                return ev
             if st["act"] in ("emit", "emit_finish"):
                 ev.append(("data",))
             if st["act"] == "raise":
@@ -167,6 +176,10 @@ def expected_events(m: dict[str, Any], n_inputs: int) -> list[tuple[Any, ...]]:
     for k in range(n_inputs):
         st = steps[min(k, len(steps) - 1)]
         ev += [("log", seq_of(lg), "step", st["act"]) for lg in st["logs"]]
+        if st.get("raise_after"):
+            ev += [("log", seq_of(lg), "step_after_emit", "raise") for lg in st.get("post_logs", [])]
+            ev.append(("error",))
+            return ev
         if st["act"] == "raise":
             ev.append(("error",))
             return ev
